@@ -117,6 +117,7 @@ type c16Step struct {
 	Pub   string  `json:"pub"`
 	Sig   *c16Sig `json:"sig"`
 	Nonce int     `json:"nonce"`
+	Fail  int     `json:"fail"` // Write: the pipe reports a late error for the Fail-th sealed frame of the call (0 = none)
 	Opt   bool    `json:"opt"` // appended by the runner ("consume what is still on the wire"): not counted when not enabled
 }
 
@@ -171,6 +172,10 @@ func (r *c16Rand) pending() int {
 
 var c16ErrWouldBlock = errors.New("c16: read would block")
 
+// what a transport returns when it notices a failure only after the bytes have gone out (a write deadline
+// that fires late, a wrapper that reports asynchronously): the frame IS on the wire, the caller gets an error
+var c16ErrTransport = errors.New("c16: transport reported a write error after the frame had left")
+
 // One endpoint's view of the connection: what it writes is captured in out, what it reads
 // is whatever the driver has released into in.
 type c16Pipe struct {
@@ -183,6 +188,7 @@ type c16Pipe struct {
 	block    bool // Read blocks (handshake goroutine) or returns c16ErrWouldBlock (driver-called Read)
 	consumed int
 	done     bool // the endpoint's MakeSecretConnection returned
+	failAt   int  // >0: the failAt-th Write call from now keeps the bytes and returns c16ErrTransport
 }
 
 func newC16Pipe() *c16Pipe {
@@ -218,6 +224,12 @@ func (p *c16Pipe) Write(b []byte) (int, error) {
 	}
 	p.out = append(p.out, b...)
 	p.cond.Broadcast()
+	if p.failAt > 0 {
+		p.failAt--
+		if p.failAt == 0 {
+			return len(b), c16ErrTransport
+		}
+	}
 	return len(b), nil
 }
 
@@ -730,6 +742,8 @@ func c16ErrClass(err error) string {
 		return "eof"
 	case errors.Is(err, c16ErrWouldBlock):
 		return "would_block"
+	case errors.Is(err, c16ErrTransport):
+		return "transport"
 	case strings.Contains(s, "failed to decrypt"):
 		return "decrypt"
 	case strings.Contains(s, "low order point"):
@@ -1139,18 +1153,30 @@ func (w *c16World) recvAuth(p *c16Party) bool {
 	return true
 }
 
-func (w *c16World) write(p *c16Party, size int) bool {
-	if p.sc == nil || !p.hsOver || size <= 0 {
+func (w *c16World) write(p *c16Party, size int, fail int) bool {
+	if p.sc == nil || !p.hsOver || size <= 0 || fail < 0 || fail > (size+1023)/1024 {
 		return false
 	}
 	data := make([]byte, size)
 	p.gen.Read(data)
 	off := len(p.stream)
 	p.stream = append(p.stream, data...)
+	p.pipe.mu.Lock()
+	p.pipe.failAt = fail
+	p.pipe.mu.Unlock()
 	n, err := p.sc.Write(data)
+	p.pipe.mu.Lock()
+	p.pipe.failAt = 0
+	p.pipe.mu.Unlock()
 	frames := w.takeFrames(p, off)
-	w.emit("Write", p.name, map[string]interface{}{"size": size, "n": n, "err": c16ErrClass(err), "frames": frames,
-		"sendNonce": c16Counter(p.sc.sendNonce)})
+	// the writer's stream is what was sealed and left the host; the rest of a failed call never existed
+	sealed := len(frames) * 1024
+	if sealed > size {
+		sealed = size
+	}
+	p.stream = p.stream[:off+sealed]
+	w.emit("Write", p.name, map[string]interface{}{"size": size, "fail": fail, "n": n, "err": c16ErrClass(err),
+		"frames": frames, "sealed": sealed, "sendNonce": c16Counter(p.sc.sendNonce)})
 	return true
 }
 
@@ -1217,7 +1243,7 @@ func (w *c16World) exec(st c16Step) bool {
 	case "RecvAuth":
 		return w.recvAuth(p)
 	case "Write":
-		return w.write(p, st.Size)
+		return w.write(p, st.Size, st.Fail)
 	case "Read":
 		return w.read(p, st.Size)
 	case "M":
@@ -1271,7 +1297,7 @@ func (w *c16World) honestHandshake() bool {
 // a stream phase: random writes, deliveries, edits and reads in both directions
 func (w *c16World) randomStream(steps, maxEdits int, drain bool) {
 	rng := w.rng
-	edits := 0
+	edits, faults, maxFaults := 0, 0, 2
 	ops := []string{"flip", "drop", "swap", "replay", "reflect", "inject", "trunc", "eof"}
 	for k := 0; k < steps; k++ {
 		p := w.parties[[]string{"A", "B"}[rng.Intn(2)]]
@@ -1279,7 +1305,13 @@ func (w *c16World) randomStream(steps, maxEdits int, drain bool) {
 		switch r := rng.Intn(100); {
 		case r < 30:
 			if len(p.frames) < 60 {
-				w.exec(c16Step{Name: "Write", P: p.name, Size: 1 + c16PickSize(rng, c16WriteSizes, 5000)})
+				sz := 1 + c16PickSize(rng, c16WriteSizes, 5000)
+				fail := 0
+				if faults < maxFaults && rng.Intn(8) == 0 { // the transport reports a late error for one of the frames
+					fail = 1 + rng.Intn((sz+1023)/1024)
+					faults++
+				}
+				w.exec(c16Step{Name: "Write", P: p.name, Size: sz, Fail: fail})
 			}
 		case r < 60:
 			w.exec(c16Step{Name: "M", Op: "fwd", P: p.name})
